@@ -22,7 +22,7 @@ View == ws
 
 W0(name, grp, kind, ov) ==
     [name |-> name, grp |-> grp, kind |-> kind, live |-> TRUE, wv |-> 1, rev |-> IF kind = "git" THEN "master" ELSE "",
-     ov |-> ov, dir |-> IF kind = "none" THEN "present" ELSE "absent", src |-> 0, aov |-> 0, mod |-> FALSE, cache |-> {},
+     ov |-> ov, omod |-> FALSE, dir |-> IF kind = "none" THEN "present" ELSE "absent", src |-> 0, aov |-> 0, mod |-> FALSE, cache |-> {},
      repo |-> FALSE, cur |-> "", det |-> <<>>, lb |-> NoBranches, rt |-> NoRemotes, dirty |-> "clean", stash |-> 0,
      nloc |-> 0, up |-> IF kind = "git" THEN [master |-> <<"m0">>, dev |-> <<"m0", "d1">>] ELSE NoRemotes]
 
@@ -41,7 +41,7 @@ TypeSets == CASE Family = "git" -> {{}}
 
 Cmd(c, sel, types, reset, b, branch, confirm, cache, fail) ==
     [c |-> c, sel |-> sel, types |-> types, reset |-> reset, b |-> b, branch |-> branch, confirm |-> confirm,
-     cache |-> cache, fail |-> fail]
+     cache |-> cache, save |-> FALSE, fail |-> fail]
 Simple(c, sel, types) == Cmd(c, sel, types, FALSE, FALSE, "", FALSE, FALSE, {})
 HasGit == \E i \in DOMAIN World : World[i].kind = "git"
 CheckoutForms == IF Family = "git"
@@ -55,7 +55,7 @@ Commands ==
                               s \in Sels, t \in TypeSets, f \in CheckoutForms } ELSE {})
     \cup { [Simple("foreach", s, t) EXCEPT !.fail = f] : s \in Sels, t \in TypeSets, f \in {{}, {World[1].name}} }
     \cup { [Simple("purge", s, t) EXCEPT !.confirm = k, !.cache = c] : s \in Sels, t \in TypeSets, k \in BOOLEAN, c \in BOOLEAN }
-    \cup (IF Family = "files" THEN { Simple("packagefiles", s, {}) : s \in Sels } ELSE {})
+    \cup (IF Family = "files" THEN { [Simple("packagefiles", s, {}) EXCEPT !.save = v] : s \in Sels, v \in BOOLEAN } ELSE {})
 \* `checkout` takes names of subprojects only after a branch name
 Runnable(cmd) == cmd.c = "checkout" /\ cmd.branch = "" => cmd.sel.k = "all"
 Alphabet == { c \in Commands : Runnable(c) }
@@ -73,7 +73,7 @@ InBounds(ev, w) ==
     /\ ev.op = "dirty" => w.stash < MaxStash /\ (Family = "mixed" => ev.how = "tracked")
     /\ (Family = "mixed" /\ ev.op \in {"detach", "plaindir", "setrev"}) => FALSE
 
-Init == ws = World /\ act = [k |-> "init"] /\ hist = <<>>
+Init == ws = World /\ act = [k |-> "init"] /\ hist = <<>> /\ TLCSet(1, {})
 
 Invoke(cmd) ==
     /\ IF BadInvocation(cmd)
@@ -102,6 +102,7 @@ PUpdate == [][OnCmd(LawUpdate)]_vars
 PReadOnly == [][OnCmd(LawReadOnly)]_vars
 PCheckout == [][OnCmd(LawCheckout)]_vars
 PInputsKept == [][OnCmd(LawInputsKept)]_vars
+PPackagefiles == [][OnCmd(LawPackagefiles)]_vars
 \* a rejected invocation changes nothing
 PBadInvocation == [][(act'.k = "cmd" /\ act'.bad) => ws' = ws]_vars
 \* the declarative whole-invocation relation agrees with the enumeration used by this model
@@ -129,10 +130,18 @@ TypeOK ==
         /\ (w.kind \in {"file", "redirect"} /\ w.dir = "present") => w.src \in {1, 2}
         /\ w.cache \subseteq {1, 2}
 
+CmdJson(c) == [c EXCEPT !.types = SetToSeq(c.types), !.fail = SetToSeq(c.fail)]
 \* every distinct world gets one witness history (the first one found)
-EmitWitness == HistDepth = 0 \/ Len(hist) = 0 \/ PrintT(ToJson([fam |-> Family, hist |-> hist]))
+HistJson == [k \in 1..Len(hist) |-> IF hist[k].k = "cmd" THEN [k |-> "cmd", cmd |-> CmdJson(hist[k].cmd)] ELSE hist[k]]
+\* (TLC evaluates an invariant on every successor it generates, so the worlds already reported are remembered in a
+\* register; the export run uses one worker)
+EmitWitness == \/ HistDepth = 0 \/ Len(hist) = 0 \/ ws \in TLCGet(1)
+               \/ (TLCSet(1, TLCGet(1) \cup {ws}) /\ PrintT(ToJson([fam |-> Family, hist |-> HistJson])))
+\* a behaviour of a simulation run reports its history when it is HistDepth steps long
+EmitFull == Len(hist) < HistDepth \/ PrintT(ToJson([fam |-> Family, hist |-> HistJson]))
+\* the export run stops at the depth of the witness histories
+LevelBound == TLCGet("level") <= HistDepth
 SetAsSeq(S) == SetToSeq(S)
-CmdJson(c) == [c EXCEPT !.types = SetAsSeq(c.types), !.fail = SetAsSeq(c.fail)]
 WrapJson(w) == [w EXCEPT !.cache = SetAsSeq(w.cache)]
 EmitAlphabet ==
     /\ TLCGet("stats").diameter >= 0
